@@ -134,7 +134,7 @@ func c14Check(r *hx.Run, locs []locSpec, names []string, host, uri string, ls *l
 }
 
 func c14(r *hx.Run) {
-	r.Rule = "exhaustive: every ordered tuple of <=3 location shapes (host subset of {h1,h2} x prefix subset of {/a,/a/b,/b}) x every subset of the location names x 15 queries ({h1,h2,h3} x {/a/x,/a/b/x,/b,/c,/}); sampled tuples of 4; random larger universes (prefix lengths 1..236, so that length differences inside and across classes are large); then end-to-end configs through a real server (incl. percent-encoded request URIs, which are matched as sent, and requests whose X-Forwarded-Host/Forwarded headers name another configured host) with one origin per location (which origin saw the request). Non-trivial = lookup with >=2 matching named locations of different classes or no match; distinct = (shape tuple, names, query)."
+	r.Rule = "exhaustive: every ordered tuple of <=3 location shapes (host subset of {h1,h2} x prefix subset of {/a,/a/b,/b}) x every subset of the location names x 15 queries ({h1,h2,h3} x {/a/x,/a/b/x,/b,/c,/}); sampled tuples of 4; random larger universes (prefix lengths 1..236, so that length differences inside and across classes are large); then end-to-end configs through a real server (incl. percent-encoded request URIs, which are matched as sent, and requests whose X-Forwarded-Host/Forwarded headers name another configured host) with one origin per location (which origin saw the request), locations whose only prefix is the catch-all /, and locations whose upstream has no server alive (the request fails, it is not handed to a less specific location). Non-trivial = lookup with >=2 matching named locations of different classes or no match; distinct = (shape tuple, names, query)."
 	r.Assume = []string{"ties inside one class are left to pike (any member accepted)"}
 	rnd := rand.New(rand.NewSource(r.Seed))
 	hostSets := subsets([]string{"h1", "h2"})
@@ -257,10 +257,17 @@ func c14EndToEnd(r *hx.Run, rnd *rand.Rand, shapes []locSpec) {
 	port := hx.FreePorts(1)[0]
 	addr := srvAddr(port)
 	var origins []string
+	// dead[i]: the upstream of location i has no server that answers (nobody listens on its port)
+	dead := map[int]bool{}
+	deadAddr := "http://" + srvAddr(hx.FreePorts(1)[0])
 	mk := func(locs []locSpec, names []string) *config.PikeConfig {
 		cfg := &config.PikeConfig{Caches: []config.CacheConfig{{Name: "c", Size: 1000, HitForPass: "5m"}}}
 		for i := 0; i < nOrig; i++ {
-			cfg.Upstreams = append(cfg.Upstreams, config.UpstreamConfig{Name: fmt.Sprintf("u%d", i), Servers: []config.UpstreamServerConfig{{Addr: origins[i]}}})
+			a := origins[i]
+			if dead[i] {
+				a = deadAddr
+			}
+			cfg.Upstreams = append(cfg.Upstreams, config.UpstreamConfig{Name: fmt.Sprintf("u%d", i), Servers: []config.UpstreamServerConfig{{Addr: a}}})
 		}
 		for i, l := range locs {
 			cfg.Locations = append(cfg.Locations, config.LocationConfig{Name: l.Name, Upstream: fmt.Sprintf("u%d", i), Hosts: l.Hosts, Prefixes: l.Prefixes})
@@ -282,8 +289,19 @@ func c14EndToEnd(r *hx.Run, rnd *rand.Rand, shapes []locSpec) {
 		nl := 1 + rnd.Intn(nOrig)
 		locs := make([]locSpec, nl)
 		var names []string
+		dead = map[int]bool{}
 		for j := range locs {
 			locs[j] = shapes[rnd.Intn(len(shapes))]
+			if rnd.Intn(5) == 0 {
+				// the catch-all prefix is a prefix like any other: it puts the location into the prefix classes
+				locs[j].Prefixes = [][]string{{"/"}, {"/", "/a"}, {"/ "}, {"/", "/"}}[rnd.Intn(4)]
+				if locs[j].Prefixes[0] == "/ " {
+					locs[j].Prefixes = []string{"/"}
+				}
+			}
+			if i%3 == 2 && rnd.Intn(3) == 0 {
+				dead[j] = true
+			}
 			locs[j].Name = fmt.Sprintf("n%d", j)
 			if rnd.Intn(4) != 0 {
 				names = append(names, locs[j].Name)
@@ -318,6 +336,26 @@ func c14EndToEnd(r *hx.Run, rnd *rand.Rand, shapes []locSpec) {
 					}
 					continue
 				}
+				// the winner's upstream may have no server alive: the request then fails (it is not handed to
+				// a less specific location); where winners of the best class tie, either outcome of the tie
+				allDead, someDead := true, false
+				for k := range want {
+					if dead[k] {
+						someDead = true
+					} else {
+						allDead = false
+					}
+				}
+				if someDead {
+					r.Add("e2e_requests_whose_best_location_has_a_dead_upstream", 1)
+					if len(fetches) == 0 && res.Status >= 500 {
+						continue // served by nobody: fine when a dead winner was picked
+					}
+					if allDead {
+						r.Violate("e2e_wrong_location", map[string]string{"case": "best_location_upstream_dead"}, fmt.Sprintf("every acceptable location %v has a dead upstream, yet status=%d upstream contacts=%d (origin %v)", want, res.Status, len(fetches), originsOf(fetches)), res.Brief(), cs)
+						continue
+					}
+				}
 				if len(fetches) != 1 || res.Status != 200 {
 					r.Violate("e2e_not_forwarded_once", nil, fmt.Sprintf("status=%d upstream contacts=%d", res.Status, len(fetches)), res.Brief(), cs)
 					continue
@@ -331,6 +369,14 @@ func c14EndToEnd(r *hx.Run, rnd *rand.Rand, shapes []locSpec) {
 			}
 		}
 	}
+}
+
+func originsOf(fs []*hx.Fetch) []int {
+	var out []int
+	for _, f := range fs {
+		out = append(out, f.Server)
+	}
+	return out
 }
 
 func init() { register("C14", "exploration", c14) }
